@@ -618,7 +618,7 @@ pub fn run(tier: Tier) -> i32 {
         "histories": {"alphabet": LETTERS, "depth": depth, "fresh_process_per_history": true}, "file_orders": "all n! orders of 5 projects of 2-4 files", "free_running": "sampled, not deciding"}));
     run.set("rule", json!("HO: every iteration of a hash collection met by a probe is a choice point; every execution with one site deviating from the baseline order (all permutations) must give byte-identical SQL / error text / RQ / formatter output. HIS: after every prefix of every history the probe outputs equal those of the fresh process. MAT: every file enumeration order gives identical SQL and rendered errors."));
     run.assume("hash seeds are modelled as per-site permutations with at most 1 simultaneous deviation plus three global policies; real seeds permute all sites together");
-    run.assume("schedules: compilation shares only std OnceLock caches and the debug-log RwLock; interleavings below the granularity of public calls are cross-checked by free-running threads, not enumerated (see DESIGN §9)");
+    run.assume("schedules are explored at the scheduling points of seam S (lock / once-cell operations, id and name generation); code between two points runs atomically, atomics and thread-locals are not intercepted (see DESIGN §9.2); the free-running thread pass is a sampled cross-check, not deciding");
     run.finish()
 }
 
